@@ -59,14 +59,20 @@ CHECKS["C06"] = dict(
     technique="Lean 4 proof by induction on the string; differential correspondence; exec round-trip oracle",
     ref="§5 C06")
 CHECKS["C02"] = dict(
-    text="Lean: every template of the regenerated element/modifier tables parses and is well formed in every context (templates_parse, "
-         "templates_wf, template_valid_everywhere via a monotonicity theorem of the context-sensitive well-formedness wfL); schematic "
-         "theorems that the for / while / lambda templates of the transpiler model are well formed around any well-formed body and that "
-         "the X / x templates are well formed exactly in the contexts the templates put them in (and provably not outside: F5/F26). Tie: "
-         "ast.parse of the real output vs the Lean transpiler model on every generated program; direct oracle transpile + compile().",
-    note=COMMON_NOTE + "Partial: the tree-level induction (transpile_wf for all trees) is not yet proved - the per-template theorems and "
-         "the AST correspondence carry it. T3: compile() is the judge of valid Python. Known findings F5/F26 (break emitted outside a loop) and F7 (live string escapes) are classified by call site.",
-    technique="Lean 4 proof (kernel evaluation over regenerated tables + monotonicity induction + per-template lemmas); AST-level differential correspondence; compile() oracle",
+    text="Lean: the TREE-LEVEL theorem transpile_wf — for EVERY parsed program (every structure, modifier and token kind, any nesting) "
+         "whose X / x stand where parse recorded them (decidable predicate placedL; it fails exactly at the F5/F26 call sites), the "
+         "transpiler model's output is well formed in the context-sensitive sense compile() checks (break / continue inside a loop of the "
+         "same function, return inside a function, no empty block, only nodes of the emitted grammar) — by mutual induction over "
+         "transpileS / wrapLambda / transpileL / transpileLL, from: every template of the regenerated element/modifier tables parses and "
+         "is well formed in every context (templates_parse, templates_wf, template_valid_everywhere via a monotonicity theorem of wfL), "
+         "one lemma per structure template, and break_outside_loop_not_wf for the failing placement. Tie: ast.parse of the real output "
+         "vs the Lean transpiler model on every generated program; the model's placedL / wfL verdicts vs CPython's compile() verdict on "
+         "the same programs (placed stream); direct oracle transpile + compile().",
+    note=COMMON_NOTE + "T3: compile() is the judge of valid Python (wfL models what it checks beyond the grammar; validated per program). "
+         "The step from text to tree is the AST correspondence. Known findings F5/F26 (break emitted outside a loop) and F7 (live string "
+         "escapes) are classified by call site; F5/F26 are exactly the programs the hypothesis placedL excludes.",
+    technique="Lean 4 proof (mutual structural induction over the transpiler model; kernel evaluation over regenerated tables; monotonicity "
+              "induction; per-template lemmas); AST-level and verdict-level differential correspondence; compile() oracle",
     ref="§5 C02")
 CHECKS["C12"] = dict(
     text="Lean: a delta typing of the control-flow skeleton of generated Python (four counters, break/continue/return, nested defs, "
